@@ -189,7 +189,9 @@ def mask_lines(run, case, src, ref, sv, rv, multi, proc_ref, nb):
         run.fail(case, f'parameter image shape {got_full.shape} is not the processing grid {exp.shape}',
                  signature=dict(kind='param-grid'))
         return
-    if not np.array_equal(got_full.astype(bool), exp):
-        d = np.argwhere(got_full.astype(bool) != exp)
+    # up-sampling: pixels whose centre sits exactly on an edge of the coarser grid are decided by float noise in GDAL
+    decided = ~resamp.centre_tie_mask(og, pg) if method == 'nearest' else np.ones(exp.shape, bool)
+    if not np.array_equal(got_full.astype(bool)[decided], exp[decided]):
+        d = np.argwhere((got_full.astype(bool) != exp) & decided)
         run.fail(case, f'parameter mask differs from "both images valid on the processing grid" at {len(d)} pixels, e.g. '
                  f'{d[0].tolist()}', signature=dict(kind='param-mask'))
